@@ -856,15 +856,15 @@ pub fn run_e2(ctx: &Ctx) -> i32 {
             AsyncPlan { sort_cb: SortCallback::None, hint_mask: None, mask: K_CANDS | K_DEPS, pairs: false, hint: None, complete_cap: 20000, dev_bound: 3, dev_cap: 50000 },
             AsyncPlan { sort_cb: SortCallback::None, hint_mask: None, mask: K_CANDS | K_DEPS | K_FILTER | K_SORT, pairs: false, hint: Some(Hint::All), complete_cap: 20000, dev_bound: 2, dev_cap: 50000 },
             AsyncPlan { sort_cb: SortCallback::None, hint_mask: None, mask: K_CANDS | K_DEPS, pairs: true, hint: None, complete_cap: 20000, dev_bound: 2, dev_cap: 50000 },
-            AsyncPlan { sort_cb: SortCallback::None, hint_mask: Some(0b10101), mask: K_CANDS | K_DEPS, pairs: false, hint: None, complete_cap: 20000, dev_bound: 2, dev_cap: 50000 },
-            AsyncPlan { sort_cb: SortCallback::None, hint_mask: Some(0b01010), mask: K_CANDS | K_DEPS, pairs: false, hint: None, complete_cap: 20000, dev_bound: 2, dev_cap: 50000 },
+            AsyncPlan { sort_cb: SortCallback::None, hint_mask: Some(0b10101), mask: K_CANDS | K_DEPS, pairs: false, hint: None, complete_cap: 5000, dev_bound: 2, dev_cap: 5000 },
+            AsyncPlan { sort_cb: SortCallback::None, hint_mask: Some(0b01010), mask: K_CANDS | K_DEPS, pairs: false, hint: None, complete_cap: 5000, dev_bound: 2, dev_cap: 5000 },
         ]
     };
     let mut plans = plans;
     // providers whose sort_candidates calls back into the SolverCache (the reason the cache is handed to
     // sort_candidates): the requests issued from inside the callback race with the solver's own
     if prop == "C10" || prop == "C13" {
-        let (cap, dev) = if q { (300, 1) } else { (20000, 2) };
+        let (cap, dev) = if q { (300, 1) } else { (3000, 2) };
         plans.push(AsyncPlan { sort_cb: SortCallback::DepsOfSorted, hint_mask: None, mask: K_CANDS | K_DEPS, pairs: false, hint: None, complete_cap: cap, dev_bound: dev, dev_cap: cap });
         plans.push(AsyncPlan { sort_cb: SortCallback::DepsOfSorted, hint_mask: None, mask: K_CANDS | K_DEPS | K_SORT, pairs: false, hint: Some(Hint::All), complete_cap: cap / 2, dev_bound: dev, dev_cap: cap / 2 });
         plans.push(AsyncPlan { sort_cb: SortCallback::CandsOfMentioned, hint_mask: None, mask: K_CANDS | K_DEPS, pairs: false, hint: None, complete_cap: cap / 2, dev_bound: dev, dev_cap: cap / 2 });
